@@ -87,8 +87,14 @@ def normalise(ctx, R):
             want = "combine(<a date>, time)"
         R.check(ok and len(created) == 1, "C07.NORMALISE", "%s|time of class %s" % (f.qual, cname), where(f, lp), "%s -> %s" % (cname, want),
                 "a datum whose time is a %s is normalised to %s (items created: %d), expected %s: the datum is not drawn at its true time" % (cname, got, len(created), want))
+        if cname == "datetime" and created:
+            txv = created[0][1].get("text") if "text" in created[0][1] else (created[0][0][2] if len(created[0][0]) > 2 else None)
+            R.check(txv is not None and key(txv) == "TXT", "C07.TEXT", f.qual + "|text handed to the item", where(f, lp), "the item gets textFn(datum) unchanged", "parse_items hands %s to the item as its text, expected the value of textFn(datum) unchanged" % (show(txv) if txv is not None else None))
+            dvv = created[0][1].get("data") if "data" in created[0][1] else (created[0][0][3] if len(created[0][0]) > 3 else None)
+            R.check(dvv is d, "C07.TEXT", f.qual + "|datum handed to the item", where(f, lp), "the item keeps the caller's datum", "parse_items hands %s to the item as its datum, not the caller's dict" % (show(dvv) if dvv is not None else None))
         # the caller's dict is updated consistently (timeFn reads d['time'] later)
         dv = d.items.get("time")
+        ctx._cache.setdefault("c07.normalise.results", {})[cname] = (got, key(dv) if dv is not None else None)
         R.check(key(dv) == got, "C07.NORMALISE", "%s|dict time of class %s" % (f.qual, cname), where(f, lp), "d['time'] holds the normalised value that the axis will see", "for a %s the item gets %s but d['time'] (read by timeFn for the axis domain and the dot position) is %s" % (cname, got, key(dv)))
     # every datum yields one item, in order
     cfg = ctx.cfg(f)
@@ -501,6 +507,24 @@ def boxsize(ctx, R):
                 b2 = A("ih%s" % k) + A("pad_left") + A("pad_right")
                 ok = (w.equals(a) and h.equals(b)) or (w.equals(b) and h.equals(a)) or (w.equals(a2) and h.equals(b2)) or (w.equals(b2) and h.equals(a2))
                 R.check(ok, "C07.BOXSIZE", "%s %s|node %d" % ("svg" if backend == SVG else "tex", d, i), where(f), "drawn size = item size plus one padding pair per side", "the box of datum %s is drawn %s x %s: expected {item width + one padding pair, item height + the other pair}" % (k, w.key(), h.key()))
+    # orientation: texts are drawn horizontally in every direction, so the box of a datum with text is as wide as the
+    # datum (plus a padding pair) and as tall as the common item height (plus the other pair) - decided on pipelines that
+    # start where Timeline.__init__ has parsed the items (levelling and rotation included, whatever their order)
+    for backend in (SVG, TEX):
+        for d in DIRECTIONS:
+            p = emit.pipe(ctx, backend, d, n=2, init=True)
+            for i, n in enumerate(p.nodes):
+                f, box = box_of(p, i, backend)
+                if box is None:
+                    R.bad("C07.BOXSIZE", "%s %s|node %d (from construction)" % (backend, d, i), where(f), "label box not found")
+                    continue
+                k = p.item_index(n)
+                w, h = as_num(box["w"][0]), as_num(box["h"][0])
+                pairs = (A("pad_left") + A("pad_right"), A("pad_top") + A("pad_bottom"))
+                okw = w is not None and any(w.equals(A("iw%s" % k) + pr) for pr in pairs)
+                okh = h is not None and any(h.equals(A("IH") + pr) for pr in pairs)
+                R.check(okw and okh, "C07.BOXSIZE", "%s %s|node %d from construction" % ("svg" if backend == SVG else "tex", d, i), where(P.func("timeline.Timeline.__init__")), "box of a labelled datum: its own width across, the item height down (plus padding)",
+                        "constructed and exported in direction %s, the box of datum %s is drawn %s wide and %s tall: expected its own width iw%s (plus a padding pair) across and the common item height IH (plus the other pair) down - the box does not have its datum's size" % (d, k, w.key() if w is not None else None, h.key() if h is not None else None, k))
     # THICK: Item.height is one constant whenever a width is supplied
     f = P.func("timeline.Item.__init__")
     R.saw(f)
@@ -510,6 +534,9 @@ def boxsize(ctx, R):
         it = Opaque("it", cls=P.cls("timeline.Item"), kind="obj")
         ev.assume("cmp(is, WIDTH, None)", False)
         ev.call_closure(Closure(f, None, selfv=it), [Opaque("T"), wv, Opaque("TXT", kind="str")], {}, st)
+        for attr, want_k in (("text", "TXT"), ("width", "WIDTH"), ("time", "T")):
+            av = st.heap.get(("it", attr))
+            R.check(av is not None and key(av) == want_k, "C07.TEXT" if attr == "text" else "C07.BOXSIZE", f.qual + "|stores %s as given" % attr, where(f), "Item keeps the %s it is given" % attr, "Item.__init__ stores %s as its %s instead of the value it was given: the label no longer shows the datum's own %s" % (show(av) if av is not None else "nothing", attr, attr))
         hv = st.heap.get(("it", "height"))
         R.check(hv is not None and num_const(hv) is not None and num_const(hv) > 0, "C07.THICK", f.qual, where(f), "with an explicit width every item has the same constant height (%s)" % (num_const(hv) if hv is not None else None), "with an explicit width Item.height is %s: boxes of one layer would differ in thickness, so links no longer end on the box edge for `up`" % (show(hv) if hv is not None else None))
 
